@@ -396,3 +396,60 @@ def _all(s):
     elif k == 'R':
         for _, c in s[2]:
             yield from _all(c)
+
+
+# ---------------------------------------------------------------------------------------------------------------------
+class Collector:
+    """Stand-in for the check context inside a worker process (counts, outcomes, first violations per signature)."""
+
+    def __init__(self):
+        self.n = 0
+        self.outcomes = {}
+        self.viol = {}
+        self.sigcount = {}
+        self.distinct_n = 0
+
+    def count(self, n=1):
+        self.n += n
+
+    def distinct(self, key):
+        self.distinct_n += 1
+
+    def outcome(self, k):
+        self.outcomes[k] = self.outcomes.get(k, 0) + 1
+
+    def violation(self, sig, case, observed, expected, engine=None):
+        self.sigcount[sig] = self.sigcount.get(sig, 0) + 1
+        if sig not in self.viol:
+            self.viol[sig] = (case, observed, expected, engine)
+
+
+def merge_into(ctx, col):
+    ctx.count(col.n)
+    for k, v in col.outcomes.items():
+        ctx.outcomes[k] = ctx.outcomes.get(k, 0) + v
+    for sig, (case, observed, expected, engine) in col.viol.items():
+        for _ in range(col.sigcount.get(sig, 1)):
+            ctx.violation(sig, case, observed, expected, engine=engine)
+    ctx.distinct_extra += col.distinct_n
+    ctx.extra['distinct_in_parallel_shards'] = ctx.extra.get('distinct_in_parallel_shards', 0) + col.distinct_n
+
+
+def parallel_chunks(func, items, extra=(), nproc=None, chunk=2000):
+    """func(chunk_of_items, *extra) -> Collector; runs over forked workers and yields the collectors."""
+    import os
+    import multiprocessing
+    nproc = nproc or min(16, os.cpu_count() or 4)
+    jobs = [(func, items[i:i + chunk], extra) for i in range(0, len(items), chunk)]
+    if len(jobs) <= 1:
+        for j in jobs:
+            yield _run_chunk(j)
+        return
+    with multiprocessing.get_context('fork').Pool(nproc) as pool:
+        for col in pool.imap_unordered(_run_chunk, jobs):
+            yield col
+
+
+def _run_chunk(job):
+    func, items, extra = job
+    return func(items, *extra)
